@@ -621,7 +621,7 @@ int main(int argc, char** argv) {
     std::string only; for (size_t i = 0; i + 1 < run.extra.size(); ++i) if (run.extra[i] == "--only") only = run.extra[i + 1];   // development aid: run one section
     if (!only.empty()) run.exhaustive = false;
     if (only.empty() || only == "graphs")
-    run.parallel("graphs", (int64_t)items.size(), [&](int64_t idx) { guarded(run, "graphs", 120, [&] {
+    run.parallel("graphs", (int64_t)items.size(), [&](int64_t idx) { guarded(run, "graphs", 20, [&] {
         const GItem it = items[idx];
         const std::vector<Kind> kinds = jointKinds(it.n);
         const int K = (int)kinds.size();
@@ -703,7 +703,7 @@ int main(int argc, char** argv) {
         }
     }
     if (only.empty() || only == "edits")
-    run.parallel("edits", (int64_t)eitems.size(), [&](int64_t idx) { guarded(run, "edits", 120, [&] {
+    run.parallel("edits", (int64_t)eitems.size(), [&](int64_t idx) { guarded(run, "edits", 20, [&] {
         const EItem it = eitems[idx];
         const std::vector<Kind> kinds = jointKinds(it.n);
         const int K = (int)kinds.size();
@@ -814,7 +814,7 @@ int main(int argc, char** argv) {
             Local L;
             std::function<void(std::vector<Op>&, Model&)> gen = [&](std::vector<Op>& h, Model& m) {
                 if (h.size() == 3) { prefixes.push_back(h); return; }
-                if ((only.empty() || only == "histories") && !run.replaying() && (!P.onlyWithThird || hadThird(h))) guarded(run, sect, 60, [&] { evaluate(h, L, "section=" + sect + "\nitem=0\n"); });
+                if ((only.empty() || only == "histories") && !run.replaying() && (!P.onlyWithThird || hadThird(h))) guarded(run, sect, 20, [&] { evaluate(h, L, "section=" + sect + "\nitem=0\n"); });
                 auto menu = menuOf(m, !h.empty() && h.back().kind == 'X');
                 for (auto& o : menu) { Model m2 = m; if (o.kind != 'X') applyToModel(m2, o); h.push_back(o); gen(h, m2); h.pop_back(); }
             };
@@ -822,7 +822,7 @@ int main(int argc, char** argv) {
             L.flush(run);
         }
         if (only.empty() || only == "histories")
-        run.parallel(sect, (int64_t)prefixes.size(), [&](int64_t idx) { guarded(run, sect, 300, [&] {
+        run.parallel(sect, (int64_t)prefixes.size(), [&](int64_t idx) { guarded(run, sect, 30, [&] {
             Local L;
             std::vector<Op> h = prefixes[idx];
             Model m; for (auto& o : h) if (o.kind != 'X') applyToModel(m, o);
